@@ -137,6 +137,9 @@ func runC10(c *eng.Ctx) {
 		}
 	})
 
+	// ---- 2b'. flush life cycle of the memory stores (shared with C09): nothing is dropped from memory before it is on disk -------
+	flushLifecycleRules(c)
+
 	// ---- 2c. an atom that matches no value is an empty set, never a failure of the whole condition ---------------------------------
 	c.Rule("ERRFLOW", "index.metricMetaDatabase{empty match is not an error}", func() { emptyMatchIsNotAnError(c) })
 
